@@ -49,7 +49,8 @@ type Decision struct {
 	Val    int
 	N      int
 	Forced bool
-	Kind   byte // 'b' branch, 'c' choice, 's' scheduler
+	Kind   byte // 'b' branch, 'c' choice, 's' scheduler, 'v' value
+	Arg    uint64 // value-by-model decisions: the candidate value the options were built from
 }
 
 type fnInfo struct {
@@ -74,7 +75,7 @@ type frame struct {
 	panicking bool
 	panicVal  any
 	info      *fnInfo
-	backEdges int
+	loops     map[int]int
 	thread    *Thread
 }
 
@@ -105,6 +106,7 @@ type Interp struct {
 	mapOrderAll bool
 	depth     int
 	knownActive string
+	pcSet       map[*Term]bool
 	xxMemo      []xxEntry
 	uncertain   bool
 	pathStubs   map[string]value
@@ -323,7 +325,9 @@ func (in *Interp) restartSolver() {
 // decide chooses among option conditions (Bool terms). Exactly the feasible
 // ones are explored (unknown counts as feasible). Returns the chosen index
 // and adds its condition to the path condition.
-func (in *Interp) decide(opts []*Term, kind byte) int {
+func (in *Interp) decide(opts []*Term, kind byte) int { return in.decideArg(opts, kind, 0) }
+
+func (in *Interp) decideArg(opts []*Term, kind byte, arg uint64) int {
 	// constant shortcut
 	nTrue, last := 0, -1
 	allConst := true
@@ -351,6 +355,16 @@ func (in *Interp) decide(opts []*Term, kind byte) int {
 	in.depth++
 	if in.depth > in.ex.cfg.MaxDecisions {
 		panic(pathEnd{"budget", "decision depth"})
+	}
+	// literal already on the path condition: the decision is forced without a query
+	if len(opts) == 2 {
+		for i, o := range opts {
+			if in.pcSet[o] {
+				d := Decision{Val: i, N: 2, Forced: true, Kind: kind, Arg: arg}
+				in.decisions = append(in.decisions, d)
+				return i
+			}
+		}
 	}
 	// which options are feasible?
 	type fe struct {
@@ -397,13 +411,13 @@ func (in *Interp) decide(opts []*Term, kind byte) int {
 	}
 	base := append([]Decision(nil), in.decisions...)
 	for _, f := range feas[1:] {
-		p := append(append([]Decision(nil), base...), Decision{Val: f.i, N: len(opts), Kind: kind})
+		p := append(append([]Decision(nil), base...), Decision{Val: f.i, N: len(opts), Kind: kind, Arg: arg})
 		in.ex.push(&WorkItem{Prefix: p, Model: f.m, Uncertain: in.uncertain || f.unk})
 	}
 	if feas[0].unk {
 		in.uncertain = true
 	}
-	d := Decision{Val: feas[0].i, N: len(opts), Forced: len(feas) == 1, Kind: kind}
+	d := Decision{Val: feas[0].i, N: len(opts), Forced: len(feas) == 1, Kind: kind, Arg: arg}
 	in.decisions = append(in.decisions, d)
 	in.addPC(opts[d.Val])
 	if feas[0].i != known {
@@ -417,6 +431,7 @@ func (in *Interp) addPC(t *Term) {
 		return
 	}
 	in.pc = append(in.pc, t)
+	in.pcSet[t] = true
 }
 
 // branch returns the direction taken on a Bool term.
@@ -459,6 +474,32 @@ func (in *Interp) chooseN(n int, kind byte) int {
 	return 0
 }
 
+// concretizeByModel forks over the feasible values of t one at a time: take t's value in the
+// current model, fork "t == v" / "t != v", repeat on the second side.
+func (in *Interp) concretizeByModel(t *Term, what string) *Term {
+	if t.IsConst() {
+		return t
+	}
+	for k := 0; k < in.ex.cfg.MaxFork; k++ {
+		var v uint64
+		if in.pos < len(in.prefix) {
+			v = in.prefix[in.pos].Arg // replay: the candidate recorded with the decision
+		} else {
+			m := in.currentModel()
+			if m == nil {
+				in.res.Inconclusive = append(in.res.Inconclusive, what+": no model to concretize from")
+				return t
+			}
+			v = NewEvaluator(m).Eval(t)
+		}
+		c := in.ts.Const(t.w, v)
+		if in.decideArg([]*Term{in.ts.Eq(t, c), in.ts.Ne(t, c)}, 'v', v) == 0 {
+			return c
+		}
+	}
+	panic(pathEnd{"unwind", fmt.Sprintf("%s: more than %d feasible values", what, in.ex.cfg.MaxFork)})
+}
+
 // concretize forks over the feasible values of t (interpreted as signed
 // int of its width) within [lo,hi]; values outside must be excluded by the
 // caller beforehand. More than maxFork feasible values is an unwinding failure.
@@ -467,7 +508,7 @@ func (in *Interp) concretize(t *Term, lo, hi int64, what string) int64 {
 		return t.Int()
 	}
 	if hi-lo+1 > int64(in.ex.cfg.MaxFork) {
-		panic(pathEnd{"unwind", fmt.Sprintf("%s: symbolic value with range [%d,%d] exceeds fork cap %d", what, lo, hi, in.ex.cfg.MaxFork)})
+		return in.concretizeByModel(t, what).Int()
 	}
 	opts := make([]*Term, 0, hi-lo+1)
 	for v := lo; v <= hi; v++ {
@@ -677,9 +718,18 @@ func (in *Interp) runFrame(fr *frame) {
 
 func (in *Interp) jump(fr *frame, to *ssa.BasicBlock) {
 	if to.Index <= fr.block.Index {
-		fr.backEdges++
-		if fr.backEdges > in.unwind {
+		if fr.loops == nil {
+			fr.loops = map[int]int{}
+		}
+		fr.loops[to.Index]++
+		if fr.loops[to.Index] > in.unwind {
 			panic(pathEnd{"unwind", fmt.Sprintf("loop bound %d exceeded in %s", in.unwind, fr.fn)})
+		}
+		// a new iteration of an outer loop restarts the count of the loops nested in it
+		for k := range fr.loops {
+			if k > to.Index {
+				delete(fr.loops, k)
+			}
 		}
 	}
 	fr.prev, fr.block = fr.block, to
